@@ -548,26 +548,25 @@ Section RACE.
       assert (Hs : In s specs) by (apply Hsub; left; reflexivity).
       destruct (run_RI (pa s q) s q f Hs eq_refl HG HL) as [f1 [Er [HG1 [HL1 HGu]]]].
       assert (HF1 : Forall2 (Rl f1) ss ps').
-      { clear - Hrest HGu Hnotin Hsub Hs Htags. induction Hrest as [|t p l1 l2 [qt [Hpt HLt]] Hr IH']; constructor.
-        - exists qt. split; auto. apply (L_stable t s qt f f1); auto.
-          + apply Hsub. right. left. reflexivity.
-          + intro E. subst. apply Hnotin. left. reflexivity.
-        - apply IH'.
-          + intro Hin. apply Hnotin. right. exact Hin.
-          + intros t0 [E|Hin]; apply Hsub; [left|right; right]; auto. }
+      { apply (Forall2_impl_in _ _ (Rl f) (Rl f1) ss ps' Hrest). intros t p0 Hin [qt [Hpt HLt]].
+        exists qt. split; auto. apply (L_stable t s qt f f1); auto.
+        - apply Hsub. right. exact Hin.
+        - intro E. subst. contradiction. }
       destruct (IH (fun t Ht => Hsub t (or_intror Ht)) Hnd' ps' f1 HG1 HF1) as [f' [Ef [HG' [HLs Hoth]]]].
       exists f'. simpl. rewrite Er, Ef. split; auto. split; auto. split.
-      + intros t [<-|Ht]; auto. apply (Hoth s PD Hs Hnotin HL1).
-      + intros t qt Ht Hnin HLt. apply Hoth; auto.
-        apply (L_stable t s qt f f1); auto. intro E. subst. apply Hnin. left. reflexivity.
+      + intros t [<-|Ht]; [apply (Hoth s PD Hs Hnotin HL1)|apply HLs; exact Ht].
+      + intros t qt Ht Hnin HLt. apply Hoth; [exact Ht|intro Hin; apply Hnin; right; exact Hin|].
+        apply (L_stable t s qt f f1); auto; intro E; subst; apply Hnin; left; reflexivity.
   Qed.
 
   (* ---- the final state is determined *)
   Definition Fin (f : fs) : Prop := G f /\ forall s, In s specs -> L s PD f.
 
-  Lemma owned_dec : forall q, owned q \/ ~ owned q.
+  Lemma owned_dec_gen : forall (l : list rspec) q,
+    (exists s, In s l /\ (q = dirp s \/ q = filep s \/ q = tmpp s)) \/
+    ~ (exists s, In s l /\ (q = dirp s \/ q = filep s \/ q = tmpp s)).
   Proof.
-    intro q. unfold owned. induction specs as [|s l IH].
+    intros l q. induction l as [|s l IH].
     - right. intros [s [[] _]].
     - destruct (path_eq_dec q (dirp s)) as [E|E1]; [left; exists s; simpl; auto|].
       destruct (path_eq_dec q (filep s)) as [E|E2]; [left; exists s; simpl; auto|].
@@ -576,6 +575,9 @@ Section RACE.
       + left. exists t. simpl. auto.
       + right. intros [t [[<-|Ht] Hq]]; [intuition|]. apply Hn. eauto.
   Qed.
+
+  Lemma owned_dec : forall q, owned q \/ ~ owned q.
+  Proof. intro q. apply owned_dec_gen. Qed.
 
   Lemma Fin_get : forall f, Fin f -> forall s, In s specs ->
     get f (dirp s) = Some Dir /\ get f (tmpp s) = None /\
